@@ -12,7 +12,7 @@ NpScalars == {Sc(k, v) : k \in SInt, v \in {"hi2", "b"}} \cup {Sc(k, v) : k \in 
              \cup {Sc("f32", "a"), Sc("f64", "a"), Sc("f64", "nan"), Sc("b1", "a")}
 Lists == {Sq("list", "int", <<2>>, <<"hi2", "b">>), Sq("list", "int", <<1>>, <<"b">>), Sq("list", "int", <<3>>, <<"b", "hi2", "b">>),
           Sq("list", "float", <<2>>, <<"a", "b">>), Sq("list", "float", <<1>>, <<"a">>), Sq("list", "float", <<0>>, <<>>),
-          Sq("list", "int", <<2, 2>>, <<"hi2", "b", "b", "hi2">>), Sq("list", "str", <<2>>, <<"a", "b">>),
+          Sq("list", "int", <<2, 2>>, <<"hi2", "b", "a", "z">>), Sq("list", "str", <<2>>, <<"a", "b">>),
           Sq("list", "bool", <<2>>, <<"a", "b">>),
           Sq("list", "float", <<2>>, <<"a", "none">>), Sq("list", "int", <<2>>, <<"b", "none">>),
           Sq("list", "float", <<2, 2>>, <<"a", "none", "b", "a">>),
@@ -22,7 +22,7 @@ Tuples == {Sq("tuple", "int", <<2>>, <<"b", "hi2">>), Sq("tuple", "int", <<1>>, 
 Arrays == {Sq("nd", "i64", <<2>>, <<"hi2", "b">>), Sq("nd", "i64", <<1>>, <<"b">>), Sq("nd", "f64", <<2>>, <<"a", "nan">>),
            Sq("nd", "f64", <<0>>, <<>>), Sq("nd", "f64", <<3>>, <<"b", "a", "b">>), Sq("nd", "u8", <<2>>, <<"lo2", "b">>),
            Sq("nd", "u8", <<1>>, <<"lo2">>), Sq("nd", "f32", <<2>>, <<"a", "b">>), Sq("nd", "b1", <<2>>, <<"a", "b">>),
-           Sq("nd", "str", <<2>>, <<"b", "a">>), Sq("nd", "i64", <<2, 2>>, <<"b", "hi2", "hi2", "b">>),
+           Sq("nd", "str", <<2>>, <<"b", "a">>), Sq("nd", "i64", <<2, 2>>, <<"b", "hi2", "a", "z">>),
            Sq("nd", "i64", <<1, 2>>, <<"b", "hi2">>)}
 Dicts == {Dc("float", <<>>), Dc("float", <<<<"p", "a">>>>), Dc("float", <<<<"p", "a">>, <<"q", "b">>>>),
           Dc("float", <<<<"q", "b">>>>), Dc("float", <<<<"p", "nan">>>>), Dc("int", <<<<"p", "hi2">>>>),
@@ -38,7 +38,13 @@ Special == SpecialCore \cup
             Sq("list", "float", <<2>>, <<"ninf", "nz">>), Sq("nd", "f64", <<1>>, <<"fmax">>), Sq("nd", "u8", <<2>>, <<"m1", "z">>),
             Sq("list", "int", <<2>>, <<"z", "m1">>),
             Dc("float", <<<<"p", "ninf">>, <<"q", "nan">>>>), Dc("int", <<<<"p", "z">>, <<"q", "m1">>>>)}
-Full == {NoneE} \cup PyScalars \cup NpScalars \cup Lists \cup Tuples \cup Arrays \cup Dicts \cup Special
+\* the same logical arrays in other memory layouts (asymmetric values: a transposition is visible), and non-ASCII text
+Layouts == {SqL("i64", <<2, 2>>, <<"b", "hi2", "a", "z">>, "F"), SqL("i64", <<2, 2>>, <<"b", "hi2", "a", "z">>, "T"),
+            SqL("i64", <<2, 2>>, <<"b", "hi2", "a", "z">>, "S"), SqL("f64", <<2, 3>>, <<"a", "b", "pinf", "nz", "fmax", "a">>, "T"),
+            SqL("i64", <<1, 2>>, <<"b", "hi2">>, "S")}
+NonAscii == {Sc("str", "u"), Sq("list", "str", <<2>>, <<"u", "a">>), Sq("nd", "str", <<2>>, <<"a", "u">>),
+             Dc("float", <<<<"u", "a">>>>)}
+Full == {NoneE} \cup PyScalars \cup NpScalars \cup Lists \cup Tuples \cup Arrays \cup Dicts \cup Special \cup Layouts \cup NonAscii
 
 \* representatives of every mechanism for the longer collections
 Mid == {NoneE, Sc("int", "b"), Sc("float", "a"), Sc("float", "nan"), Sc("float", "pinf"), Sc("bool", "a"), Sc("str", "a"),
@@ -46,15 +52,18 @@ Mid == {NoneE, Sc("int", "b"), Sc("float", "a"), Sc("float", "nan"), Sc("float",
         Sq("list", "int", <<2>>, <<"hi2", "b">>), Sq("list", "int", <<1>>, <<"b">>), Sq("list", "float", <<0>>, <<>>),
         Sq("list", "float", <<2>>, <<"a", "none">>),
         Sq("tuple", "int", <<2>>, <<"b", "hi2">>), Sq("nd", "i64", <<2>>, <<"hi2", "b">>), Sq("nd", "f64", <<2>>, <<"a", "nan">>),
-        Sq("nd", "u8", <<1>>, <<"lo2">>), Sq("nd", "i64", <<2, 2>>, <<"b", "hi2", "hi2", "b">>),
+        Sq("nd", "u8", <<1>>, <<"lo2">>), SqL("i64", <<2, 2>>, <<"b", "hi2", "a", "z">>, "F"),
         Rg("int", <<<<"hi2", "b">>, <<"b">>>>), Dc("float", <<<<"p", "a">>>>), Dc("float", <<<<"p", "a">>, <<"q", "b">>>>)}
 Small == {NoneE, Sc("int", "b"), Sc("float", "a"), Sc("u8", "lo2"), Sc("str", "a"),
           Sq("list", "int", <<2>>, <<"hi2", "b">>), Sq("list", "int", <<1>>, <<"b">>), Sq("list", "float", <<0>>, <<>>),
-          Sq("nd", "f64", <<2>>, <<"a", "nan">>), Sq("nd", "i64", <<2, 2>>, <<"b", "hi2", "hi2", "b">>),
+          Sq("nd", "f64", <<2>>, <<"a", "nan">>), SqL("i64", <<2, 2>>, <<"b", "hi2", "a", "z">>, "T"),
           Dc("float", <<<<"p", "a">>>>), Dc("float", <<<<"q", "b">>>>)}
 
 \* thorough, three entries: everything except the middle integer widths (i16/i32/u16/u32 behave as i8/u8 in pairs already)
-Large == Full \ ((Special \ SpecialCore) \cup {Sc(k, v) : k \in {"i16", "i32", "u16", "u32"}, v \in {"hi2", "lo2", "b"}}
+Large == Full \ ((Special \ SpecialCore) \cup {SqL("i64", <<1, 2>>, <<"b", "hi2">>, "S"), Sq("nd", "str", <<2>>, <<"a", "u">>),
+                                                 SqL("f64", <<2, 3>>, <<"a", "b", "pinf", "nz", "fmax", "a">>, "T"),
+                                                 Dc("float", <<<<"u", "a">>>>)}
+                 \cup {Sc(k, v) : k \in {"i16", "i32", "u16", "u32"}, v \in {"hi2", "lo2", "b"}}
                  \cup {Sc("float", "b"), Sc("bool", "b"), Sc("str", "b"), Sc("i64", "b"), Sc("u64", "b"), Sc("i8", "b"),
                        Sq("list", "int", <<3>>, <<"b", "hi2", "b">>), Sq("nd", "f64", <<3>>, <<"b", "a", "b">>),
                        Sq("list", "bool", <<2>>, <<"a", "b">>), Sq("nd", "b1", <<2>>, <<"a", "b">>),
